@@ -346,6 +346,10 @@ class Interp:
                 # enum.Flag containment: a in b  <=>  a & b == a  (the empty flag is contained in every flag)
                 res = a.members <= b.members
                 return res if opn == "In" else not res
+            if isinstance(b, EnumV) and isinstance(b.value, str) and isinstance(a, str):
+                # member of a str-valued enum (StrEnum): substring test on its value
+                res = a in b.value
+                return res if opn == "In" else not res
             raise Unsupported(f"membership in {b!r}")
         if opn in ("Eq", "NotEq"):
             if isinstance(a, AObj) and isinstance(b, AObj):
